@@ -1,5 +1,5 @@
 import Tpp.Driver.Proto
-import Tpp.Ref.Render
+import Tpp.Ref.Regions
 /-!
 Oracle for terminal scripts (`OT…`): the REAL library's bytes and state records are judged against
 the reference terminal `Ref.VT` and a specification-level account of the session (what was requested),
@@ -114,7 +114,7 @@ def opInDomain (st : OSt) : Op → Bool
   | .writeString es => es.all Element.wf
   | .rawElement e => e.wf && st.rendKnown
   | .moveCursor p => st.sized && decide (0 ≤ p.x) && decide (0 ≤ p.y) && decide (p.x.toNat < st.vt.w) && decide (p.y.toNat < st.vt.h)
-  | .setTitle t => t.all fun b => b ≠ 0x07 && b ≠ 0x1B && b ≠ 0x9C && 0x20 ≤ b
+  | .setTitle t => titleClean t
   | .setSize e => decide (1 ≤ e.width) && decide (1 ≤ e.height)
   | _ => true
 
@@ -122,15 +122,6 @@ def gridEqOn (a b : VT) (p : Nat → Nat → Bool) : Bool :=
   (List.range a.h).all fun y => (List.range a.w).all fun x => !(p x y) || decide (a.cell x y = b.cell x y)
 def gridAllOn (a : VT) (p : Nat → Nat → Bool) (c : Cell) : Bool :=
   (List.range a.h).all fun y => (List.range a.w).all fun x => !(p x y) || decide (a.cell x y = c)
-
-def eraseRegion (k : EraseKind) (cx cy x y : Nat) : Bool :=
-  match k with
-  | .display => true
-  | .above => decide (y < cy) || (decide (y = cy) && decide (x ≤ cx))
-  | .below => decide (y > cy) || (decide (y = cy) && decide (x ≥ cx))
-  | .line => decide (y = cy)
-  | .lineLeft => decide (y = cy) && decide (x ≤ cx)
-  | .lineRight => decide (y = cy) && decide (x ≥ cx)
 
 /-- positions of the glyphs printed since `n0`, checked against the specification-level expectation -/
 def checkPositions (i : Nat) (w : Nat) : OSt → List (Nat × Nat × Cell) → OSt
